@@ -483,6 +483,39 @@ Definition writer_offsets (groups : list (N * list (list N))) : list N :=
 Definition writer_types (groups : list (N * list (list N))) : list N := map fst (writer_cells groups).
 
 (* ================================================================================================ *)
+(* Tables: _write_table (io/__init__.py:129-136) and the line / field structure seen by CSVFieldReader  *)
+(* (np.genfromtxt with delimiter "," and names=True: lines split at newlines, blank lines skipped,      *)
+(*  fields split at the delimiter, first line = names).  Cells are the printed strings.                 *)
+(* ================================================================================================ *)
+Fixpoint join (sep : N) (fs : list bytes) : bytes :=
+  match fs with
+  | [] => []
+  | f :: r => match r with [] => f | _ :: _ => f ++ sep :: join sep r end
+  end.
+
+Fixpoint split_go (sep : N) (cur : bytes) (s : bytes) : list bytes :=
+  match s with
+  | [] => [rev cur]
+  | c :: r => if c =? sep then rev cur :: split_go sep [] r else split_go sep (c :: cur) r
+  end.
+Definition split (sep : N) (s : bytes) : list bytes := split_go sep [] s.
+
+Definition comma : N := 44.
+Definition newline : N := 10.
+
+Definition write_table (names : list bytes) (rows : list (list bytes)) : bytes :=
+  concat (map (fun line => join comma line ++ [newline]) (names :: rows)).
+
+Definition nonempty (l : bytes) : bool := match l with [] => false | _ => true end.
+
+Definition read_table (s : bytes) : option (list bytes * list (list bytes)) :=
+  match map (split comma) (filter nonempty (split newline s)) with
+  | [] => None
+  | names :: rows => Some (names, rows)
+  end.
+
+
+(* ================================================================================================ *)
 (* harness interface: bytes as hexadecimal string literals                                           *)
 (* ================================================================================================ *)
 Definition hexval (c : ascii) : N :=
